@@ -3,7 +3,9 @@
 package obfs4
 
 import (
+	"crypto/rand"
 	"fmt"
+	"time"
 
 	"gitlab.com/yawning/obfs4.git/transports/base"
 	"gitlab.com/yawning/obfs4.git/transports/obfs4/framing"
@@ -61,4 +63,21 @@ func VerifHandshakeConstants() map[string]int {
 		"maxPacketPayloadLength": maxPacketPayloadLength, "maximumSegmentLength": framing.MaximumSegmentLength, "frameOverhead": framing.FrameOverhead,
 		"packetOverhead": packetOverhead, "keyLength": framing.KeyLength, "seedPacketPayloadLength": seedPacketPayloadLength,
 	}
+}
+
+// VerifPlantReplay records an (unrelated, random) handshake MAC in the bridge's replay filter as if it had been seen
+// `age` ago - a long-running bridge whose eldest entry is about to expire.  Only meaningful on a filter that holds
+// nothing newer (an older time stamp behind a newer entry is a backwards clock).
+func VerifPlantReplay(f base.ServerFactory, age time.Duration) bool {
+	sf, ok := f.(*obfs4ServerFactory)
+	if !ok {
+		return false
+	}
+	var mac [16]byte
+	if _, err := rand.Read(mac[:]); err != nil {
+		return false
+	}
+	replayFilterLock.Lock()
+	defer replayFilterLock.Unlock()
+	return !sf.replayFilter.TestAndSet(time.Now().Add(-age), mac[:])
 }
